@@ -36,6 +36,7 @@ DECIDING = ['cumulative seconds == tempo-map integral', 'length == last cumulati
             'sleep == remaining time', 'no drift: yield == max(scheduled, resumed)',
             'type 2 refuses', 'second2tick(tick2second(t)) == t', 'after edit == model']
 TIMEOUT = {'quick': 300, 'thorough': 1800}
+ENV_FULL = True        # cheap enough: every shard runs once in each interpreter environment (core.ENV_MODES)
 REL = 1e-9
 
 
